@@ -29,4 +29,9 @@ SPECS = {
                       'the mailmap line regex of MailmapRewriter::from_reader is modelled by hand (parseMailmapLine) and validated by the correspondence run'],
         assumptions=['std::str::from_utf8 and Unicode White_Space as modelled in Frrs/Utf8.lean'],
     ),
+    'C02': dict(
+        fncorr=['commit'],
+        trusted_base=['modelled, not verified: should_keep_commit, finalize_parent_lines, resolve_canonical_mark, mark parsers, build_alias, rename_commit_header_ref (Frrs/Commit.lean)'],
+        assumptions=['fast-import resolves an alias mark to its target and a `from`/`merge` list to the parent list in that order (importer contract, Frrs/Import.lean)'],
+    ),
 }
